@@ -103,6 +103,13 @@ def match_group(impl, spec, is_cb=False):
                 continue
             # closed instead: nothing else may follow
             return impl[i:] == ['CLOSED']
+        if s.startswith('CONNACK 1|0 '):
+            # SessionPresent left open (client whose only state stems from an unanswerable CONNECT)
+            if i < len(impl) and impl[i] in ('CONNACK 1 ' + s[len('CONNACK 1|0 '):], 'CONNACK 0 ' + s[len('CONNACK 1|0 '):]):
+                i += 1
+                k += 1
+                continue
+            return False
         if s.startswith('REFUSED{'):
             codes = copies_of(s)
             rest = impl[i:]
@@ -144,7 +151,7 @@ def op_topics(op):
     for k, v in enumerate(segs):
         if not v:
             continue
-        if v[0] in ('first', 'firstp', 'hsrace') and len(v) > 7 and v[2] == 'connect':
+        if v[0] in ('first', 'firstp', 'failfirst', 'hsrace') and len(v) > 7 and v[2] == 'connect':
             if v[7] != '~':
                 out.append(v[7].split(':')[0])
             continue
